@@ -300,7 +300,8 @@ class Gen(object):
                 if not want_dynamic:
                     t = self.pick_type(s, fixed_only)
                 elif last and self.greedy:
-                    t = self.pick_type(s, lambda k: True)
+                    unl = self.types_of_kind(s, lambda k: k == UNLIMITED)
+                    t = rng.choice(unl) if unl and rng.random() < 0.6 else self.pick_type(s, lambda k: True)
                 else:
                     t = self.pick_type(s, lambda k: k != UNLIMITED)
                 members.append(Member(mname, t))
